@@ -1,4 +1,5 @@
 import GoSSE.Proofs.MessageBuild
+import GoSSE.Proofs.GenEquivFields
 import GoSSE.Props.C01
 /-!
 # C02 — encoded messages decode to exactly what was appended (no injection)
@@ -169,5 +170,26 @@ theorem own_parser_decodes_concat (id₀ : Bytes) (scripts : List (List BuildOp)
   have hd := decode_concat_gosse id₀ scripts hv
   simp only [hsrc, hend, Bool.false_eq_true, if_false, hd] at hc
   simpa [GoSSE.Proofs.endErr] using hc
+
+
+/-! ### The translated source text (regenerated from /repo on every run) -/
+
+/-- `Message.appendText` *as translated from message.go* — the range loop over the arguments with the
+`for c != ""` / `parser.NextChunk` / `append` loop inside — leaves, for every message, flag and argument list,
+exactly the chunk list of the model's `appendText` (the function `appendText_lines` and
+`appended_chunks_single_line` above are about), touching no other field, never panicking, its loops ending. -/
+theorem translated_appendText_is_model (fuel : Nat) (e : Gen.Message) (isComment : Bool) (strs : List Bytes)
+    (m : Message) (he : e.chunks = m.chunks.map GenEquiv.gC) (hf : ∀ c ∈ strs, c.length + 1 < fuel)
+    (hn : strs.length < fuel) :
+    Gen.Message_appendText fuel e isComment strs =
+      .ok { e with chunks := (m.appendText isComment strs).chunks.map GenEquiv.gC } := by
+  rw [GenEquiv.appendText_chunks]
+  exact GenEquiv.appendText_eq fuel e isComment strs m.chunks he hf hn
+
+/-- non-vacuity: the translated `AppendData("a\r\nb", "c")` on an empty message yields three data chunks -/
+example :
+    (Gen.Message_AppendData 9 { chunks := [], ID := ⟨⟨[], false⟩⟩, Type' := ⟨⟨[], false⟩⟩, Retry := 0 }
+        [[97, 13, 10, 98], [99]]).map (·.chunks) =
+      .ok [⟨[97], false⟩, ⟨[98], false⟩, ⟨[99], false⟩] := by rfl
 
 end GoSSE.Props.C02
